@@ -194,7 +194,8 @@ def parse_rows(rows):
         elif s == "stat":
             out.append(dict(suite="stat", name=c[0], n=int(c[1])))
         elif s == "schema":
-            out.append(dict(suite="schema", name=c[0], ok=(r["model"] and r["model"][0] == "ok")))
+            out.append(dict(suite="schema", name=c[0], ok=(r["model"] and r["model"][0] == "ok"),
+                            tdec=(len(r["model"] or []) > 1 and r["model"][1] == "tdec=yes")))
     return out
 
 
@@ -302,6 +303,8 @@ def run_message_property_with(ctx, spec, pre_problems=None):
             if r["suite"] == "schema":
                 if not r["ok"]:
                     tie_bad.append(("schema", r))
+                td = ctx.cover.setdefault("schemas_T_dec_side_condition", {"holds": 0, "does_not": 0})
+                td["holds" if r.get("tdec") else "does_not"] += 1
                 continue
             if r["suite"] == "stat":
                 hist.setdefault("rewrites", {})[r["name"]] = hist.get("rewrites", {}).get(r["name"], 0) + r["n"]
@@ -578,7 +581,7 @@ def check_C08(ctx):
 
 def check_C02(ctx):
     return run_message_property(ctx, dict(
-        theorems=["C02_value_rules", "C02_field", "C02_tag", "C02_loop_is_dispatch", "C02_flat_message"],
+        theorems=["C02_value_rules", "C02_field", "C02_tag", "C02_loop_is_dispatch", "C02_flat_message", "C02_every_decode_body", "C02_varint_reader", "C02_unmarshal_is_reference_decoder"],
         suites=lambda c: [("decv", ["decv", c.seed, _n(c, 2500, 60000)])],
         prop={"dec": lambda r: r["ist"] == "ok" and r["ost"] == "ok" and r["flags"].get("c02") == "ok"},
         tie={"dec": tie_dec_val}, spec={"dec": spec_dec}, nontrivial=nontrivial_any, rule=DEC_RULE + " (valid stream only); oracle: proto.Unmarshal of the same bytes"))
@@ -586,7 +589,7 @@ def check_C02(ctx):
 
 def check_C10(ctx):
     return run_message_property(ctx, dict(
-        theorems=["C10_known_untouched", "C10_retag", "C10_skip_varint"],
+        theorems=["C10_known_untouched", "C10_retag", "C10_skip_varint", "C10_unknown_token", "C10_unmarshal_is_reference_decoder"],
         suites=lambda c: [("decv", ["decv", c.seed + 7, _n(c, 2500, 60000)]), ("decb", ["decb", c.seed + 7, _n(c, 1500, 30000)])],
         prop={"dec": lambda r: r["ist"] != "PANIC" and (r["ist"] != "ok" or r["flags"].get("wf") == "1") and
               (r["tag"] != "valid" or (r["ist"] == "ok" and r["flags"].get("c02") == "ok"))},
@@ -607,7 +610,7 @@ def check_C04(ctx):
 
 def check_C05(ctx):
     return run_message_property(ctx, dict(
-        theorems=["C05_invalid_number", "C05_truncated_tag", "C05_wrong_wire", "C05_sticky_next", "C05_sticky_pop"],
+        theorems=["C05_invalid_number", "C05_truncated_tag", "C05_wrong_wire", "C05_sticky_next", "C05_sticky_pop", "C05_skip_is_one_value", "C05_accepts_exactly_wellformed"],
         suites=lambda c: [("decb", ["decb", c.seed + 3, _n(c, 4000, 100000)]), ("decv", ["decv", c.seed + 3, _n(c, 800, 20000)])],
         prop={"dec": lambda r: r["ist"] != "PANIC" and (r["ist"] == "ok") == (r["flags"].get("wf") == "1")},
         tie={"dec": tie_dec_ok}, spec={"dec": spec_dec}, nontrivial=nontrivial_any,
